@@ -435,14 +435,15 @@ type TimerReq struct {
 
 // RandReq is one draw requested from the math/rand shim: the caller asked for a value in [0,N).
 type RandReq struct {
-	Task int
-	N    int64
+	Task  int
+	N     int64
+	Value int64 // what the shim returned
 }
 
 // NoteRand is called by the math/rand shim for every draw.
-func NoteRand(n int64) {
+func NoteRand(n, value int64) {
 	if s := S; s != nil && len(s.randLog) < 4000 {
-		s.randLog = push(s.randLog, RandReq{Task: CurrentID(), N: n})
+		s.randLog = push(s.randLog, RandReq{Task: CurrentID(), N: n, Value: value})
 	}
 }
 
